@@ -251,7 +251,9 @@ def _echo_app_class():
 # "finish" is a harness op: the simulated external program completes (like a
 # child process exiting).  Independently the program completes by itself once
 # is_finished() has been polled more than k times (k = None: never).
-BASE_OPS = [["start"], ["join"], ["cancel"], ["state"], ["get_result"], ["set_param", 7], ["finish"]]
+# ["join", "expired"]: join(timeout=t) with t shorter than the time since start(); a program that
+# has finished by then needs no waiting, so the join succeeds like one without timeout
+BASE_OPS = [["start"], ["join"], ["cancel"], ["state"], ["get_result"], ["set_param", 7], ["finish"], ["join", "expired"]]
 BASE_BEHAVIOURS = [
     {"k": None, "run_raises": False, "evaluate_raises": False},
     {"k": 0, "run_raises": False, "evaluate_raises": False},
@@ -264,7 +266,7 @@ BASE_BEHAVIOURS = [
 
 def st_base(tier):
     set_param = st.integers(0, 9).map(lambda v: ["set_param", v])
-    any_op = st.one_of(st.sampled_from(BASE_OPS[:5] + [["finish"], ["start"]]), set_param)
+    any_op = st.one_of(st.sampled_from(BASE_OPS[:5] + [["finish"], ["start"], ["join", "expired"]]), set_param)
     before = st.one_of(set_param, st.sampled_from([["get_result"], ["state"], ["cancel"], ["finish"]]))
     during = st.one_of(set_param, st.sampled_from([["get_result"], ["state"], ["state"], ["finish"], ["finish"], ["start"]]))
     beh = st.fixed_dictionaries(
@@ -281,7 +283,7 @@ def st_base(tier):
             return draw(st.lists(any_op, max_size=8))
         pre = draw(st.lists(before, max_size=2))
         mid = draw(st.lists(during, max_size=3))
-        end = draw(st.sampled_from([["join"], ["join"], ["cancel"]]))
+        end = draw(st.sampled_from([["join"], ["join"], ["join", "expired"], ["cancel"]]))
         post = draw(st.lists(any_op, max_size=1))
         return pre + [["start"]] + mid + [end] + post
 
@@ -358,7 +360,16 @@ def run_base(case):
                 state, path = "CANCELLED", "timeout"
             else:
                 try:
-                    app.join()
+                    if len(op) > 1 and finishes_on_next_poll():
+                        o.label("join_finished_app_with_expired_timeout")
+                        try:
+                            app.join(timeout=1e-9)
+                        except AppTimeoutError as e:
+                            o.fail("finished_app_joins_whatever_the_timeout", f"join(timeout=1e-9) of a finished program: {e}")
+                            state, path = "CANCELLED", "timeout"
+                            break
+                    else:
+                        app.join()
                     if beh["evaluate_raises"]:
                         o.fail("failed_run_raises_on_join", "join returned although evaluate() raised")
                     state, path = "JOINED", "joined"
@@ -1081,6 +1092,10 @@ def st_msa(tier):
         case["ops"] = draw(
             st_ops(spec["setters"] * 3 + COMMON_SETTERS, MSA_GETTERS + spec["getters"] + COMMON_GETTERS, tool["gate"])
         )
+        if spec["setters"] and draw(st.sampled_from([False] * 4 + [True])):
+            # an option set again before the start replaces the earlier value (and whatever resource it held)
+            again = draw(st.sampled_from(spec["setters"]))
+            case["ops"] = [again, again] + case["ops"]
         return case
 
     return gen()
